@@ -60,6 +60,12 @@ pub fn exec(case: &Value) -> Value {
             Ok(r) => r,
             Err(_) => return json!({"load": "serde"}),
         };
+        // one text, one rule: the same text followed by another document is not a rule, whatever that document holds
+        for tail in ["---\nname: second\nunknown_key: 1\n", "---\nname: second\n", "---\n", "---\n~\n", "...\n---\nname: second\nseverity: 300\n"] {
+            if Rule::from_str(&format!("{text}{tail}")).is_ok() {
+                return json!({"from_str-accepts-a-second-document": tail});
+            }
+        }
         // serialise, parse back, compare
         let back = serde_yaml::to_string(&rule).ok().and_then(|s| Rule::from_str(&s).ok());
         let same = match &back {
